@@ -484,7 +484,11 @@ fn make_prefix(namespace: &str, existing_namespaces: &[Rc<Namespace>]) -> String
 fn make_abbreviated_namespace(namespace: &str, existing_namespaces: &[Rc<Namespace>]) -> String {
     // the abbreviation becomes an XML prefix and part of a module name: letters and digits only
     fn take_three_chars_max(namespace: &str) -> String {
-        namespace.chars().filter(|c| c.is_alphanumeric()).take(3).collect()
+        namespace
+            .chars()
+            .filter(|c| c.is_alphanumeric() && (c.is_ascii() || !c.is_numeric()))
+            .take(3)
+            .collect()
     }
 
     let mut append: Option<u32> = None;
